@@ -32,9 +32,14 @@
    whether or not any helper ever ran.  C10_terminates_without_helpers and C10_participants_never_blocked are the state
    invariant and the one-step enabledness these rest on, not termination statements by themselves.
 
+   The record: freed AT MOST once in every execution (C10_record_freed_once: freed is 0 or 1, and 1 exactly when
+   da_thr_cnt is 0), and exactly once precisely when all T participants have run (C10_nothing_enabled_record); when some
+   helper continuation never starts, the record is not freed (it is still held by that continuation).
+
    The model's enabling condition for a helper ("a participant may enter invoke2 only while fewer than T participants
-   have entered": each of the T-1 continuations pushed by _dispatch_apply_f is invoked at most once) is discharged by
-   the root-queue model: Properties_C01_root.C01_root_pop_unique (the k-th dequeue returns the k-th pushed item, no item is
+   have entered": each of the T-1 continuations pushed by _dispatch_apply_f is invoked at most once) is ARGUED from
+   the root-queue model (two theorems about two separate models and a prose step between them; no single statement
+   mentions both Apply.parts and RootQ.hpop): Properties_C01_root.C01_root_pop_unique (the k-th dequeue returns the k-th pushed item, no item is
    dequeued twice) together with C10_helper_batch_push_is_rootq_run below.  Modelling limit of RootQ: it has pushes of ONE
    item, whereas _dispatch_apply_f pushes its T-1 continuations with one os_mpsc_push_list (privately pre-linked chain,
    one exchange on dq_items_tail, one link store).  The limit does not matter for at-most-once: the theorem below shows
